@@ -34,3 +34,14 @@ Fixpoint diff_count (a b : list tlv) : nat :=
   | x :: a', y :: b' => (if tlv_eqb x y then 0 else 1) + diff_count a' b'
   | _, _ => 0
   end.
+
+(* ---- the vendor form: a Vendor-Specific attribute = 4 vendor octets, then sub-attributes (type, length, value),
+   possibly one stray octet at the end (tolerated by attrvalidate) ---- *)
+Definition enc_sub (p : N * bytes) : bytes := fst p :: (nlen (snd p) + 2) :: snd p.
+Definition enc_subs (l : list (N * bytes)) : bytes := concat (map enc_sub l).
+Definition sub_ok (p : N * bytes) : bool := nlen (snd p) <=? 253.
+Definition vsa (vb : bytes) (subs : list (N * bytes)) (tr : bytes) : tlv :=
+  mkTlv Consts.RAD_Attr_Vendor_Specific (vb ++ enc_subs subs ++ tr).
+(* an attribute that cannot carry the vendor-form TTL of vendor t0 *)
+Definition other_vendor (t0 : N) (a : tlv) : bool :=
+  negb (tlv_t a =? Consts.RAD_Attr_Vendor_Specific) || (tlv_l a <=? 4) || negb (vendor_of (tlv_v a) =? t0).
